@@ -158,6 +158,7 @@ def run(ctx):
         for foreign in ("VERSION", "FOO", "NOTEDATA2"):
             histories.append((kind, cls, "blank-reinsert", "blankobj", [["setkey", foreign, "0.83"], ["items"]]))
     reqs, metas = [], []
+    eqreqs, eqmetas, eq_budget = [], [], ctx.scale(3000, 30000)
     for kind, cls, iname, init, seq in histories:
         if init == "blankobj":
             obj = cls.blank() if hasattr(cls, "blank") else cls()
@@ -227,6 +228,13 @@ def run(ctx):
                     verdicts = [obj == o2, o2 == obj, not (obj != o2), not (o2 != obj)]
                 except Exception as e:
                     verdicts = [core.exc_name(e)]
+                if len(eqreqs) < eq_budget and rng.random() < .2:
+                    # tie: the model's step-by-step __eq__ (Model/Equality.lean) on the same pair, and on the object against itself
+                    enc = lambda its: [[k, v] for k, v in its]
+                    eqreqs.append({"op": "views.eq", "kind": kind if kind.endswith("Simfile") else "plain", "a": enc(final), "b": enc(items)})
+                    eqmetas.append((case, what, verdicts[0]))
+                    eqreqs.append({"op": "views.eq", "kind": kind if kind.endswith("Simfile") else "plain", "a": enc(final), "b": enc(final)})
+                    eqmetas.append((case, "the same mapping", True))
                 if verdicts != [False] * 4:
                     bad = (what, items, verdicts); break
             res.count("inequality_checked")
@@ -265,6 +273,10 @@ def run(ctx):
     for (case, outs, final), m in zip(metas, resp):
         if m["outs"] != outs or m["d"] != final:
             res.tie_break("views.run", case, str(outs)[-300:], str(m["outs"])[-300:])
+    for (case, what, impl_eq), m in zip(eqmetas, ctx.lean.eval_sharded(eqreqs, shards=16)):
+        if m != impl_eq:
+            res.tie_break("views.eq", dict(case, other=what), impl_eq, m)
+    res.stats["equality_pairs_tied"] = len(eqreqs)
     res.stats["histories"] = len(histories); res.stats["depth"] = depth
     res.assumptions = ["OrderedDict is CPython's; the model is an association list with the same update/append/delete rules"]
     return res
